@@ -116,3 +116,41 @@ Theorem C14_source_recursive_type_hash : forall met k exported anonymous,
         else ([], true)).
 Proof. intros; split; [exact (tie_recursive_type_hash _ _)|exact (tie_type_hash_field _ _)]. Qed.
 Print Assumptions C14_source_recursive_type_hash.
+
+(* ---- registration, the restore step of Import, the hash accessors, the generic cache's transfer adapter ---- *)
+From Cache Require Import TieWalk.
+
+Theorem C14_source_add_cache : forall has_map,
+  run_http_add has_map =
+  Some ((if has_map then [] else [("assign t.caches", [VPtr true "new map"])]) ++
+        [("assign t.caches[name]", [VPtr true "c"])])%list.
+Proof. exact tie_http_add_cache. Qed.
+Print Assumptions C14_source_add_cache.
+
+(* importCache hands the response body to Restore of the cache that was asked for, once; the outcome is only logged *)
+Theorem C14_source_import_cache : forall ok warn imp,
+  run_import_cache ok warn imp =
+  Some (("Restore from", [VPtr true "body"]) ::
+        (if ok then (if imp then [("important", [VStr "cache restored"])] else [])
+         else (if warn then [("warn", [VStr "failed to restore cache dump"])] else []))).
+Proof. exact tie_import_cache. Qed.
+Print Assumptions C14_source_import_cache.
+
+Theorem C14_source_hash_accessors : forall h,
+  run_hash_fn fn_GobTypesHash h = Some ([VZ h], []) /\
+  run_hash_fn fn_GobTypesHashReset h = Some ([], [("assign gobTypesHash", [VZ 0])]).
+Proof. exact tie_types_hash_accessors. Qed.
+Print Assumptions C14_source_hash_accessors.
+
+(* ShardedMapOf.WalkDumpRestorer: Dump and Restore are the cache's own, Walk is the untyped walker over the same shards,
+   whose visit hands the callback an untyped copy (K, V, atomically loaded E) with the lock released *)
+Theorem C14_source_generic_adapter :
+  run_wdr = Some ([("assign w.Dumper", [VPtr true "c"]); ("assign w.Walker", [VRef "lc"]); ("assign w.Restorer", [VPtr true "c"])],
+                  Some (VRec "legacy walker over" [("shards of", VPtr true "*c")])) /\
+  forall cb_ok e c n,
+    let copy := VRec "TraitEntry" [("K", VPtr true "key of the entry"); ("V", VPtr true "value of the entry"); ("E", VZ e)] in
+    run_visit fn_shardedMapLegacyWalkerOf_Walk cb_ok e c n =
+      Some (if cb_ok then ([("RUnlock", []); ("callback", [copy]); ("RLock", [])], n + 1, VisitNext)
+            else ([("RUnlock", []); ("callback", [copy])], n, VisitStop n)).
+Proof. split; [exact tie_walk_dump_restorer|exact tie_walk_visit_legacy]. Qed.
+Print Assumptions C14_source_generic_adapter.
